@@ -162,14 +162,31 @@ func pureInstr(instr ssa.Instruction) bool {
 	return false
 }
 
-func (fr *frame) tryIfConvert(instr *ssa.If, cond *Term) bool {
+// tryIfConvert: converted = the branch was evaluated without forking; finished = the region ran to the function's
+// Return instructions (early-return form: `if c { return a }; ...; return b` in a pure function body), fr.result is
+// set and the frame is done.
+func (fr *frame) tryIfConvert(instr *ssa.If, cond *Term) (converted, finished bool) {
+	B := fr.block
+	J := fr.w.pdomOf(fr.fn).ipdom[B]
+	if J == B {
+		return false, false
+	}
+	if J == nil {
+		// no join block: every path from here ends in a Return of this function
+		if fr.defers != nil || fr.fn.Recover != nil {
+			return false, false
+		}
+		ok := fr.ifConvertRegion(instr, cond, nil)
+		return ok, ok
+	}
+	return fr.ifConvertRegion(instr, cond, J), false
+}
+
+func (fr *frame) ifConvertRegion(instr *ssa.If, cond *Term, J *ssa.BasicBlock) bool {
 	w := fr.w
 	tt := w.tt
 	B := fr.block
-	J := w.pdomOf(fr.fn).ipdom[B]
-	if J == nil || J == B {
-		return false
-	}
+	toReturn := J == nil
 	// collect region
 	region := map[*ssa.BasicBlock]bool{}
 	var order []*ssa.BasicBlock
@@ -190,7 +207,7 @@ func (fr *frame) tryIfConvert(instr *ssa.If, cond *Term) bool {
 		}
 		region[x] = true
 		order = append(order, x)
-		if len(order) > 24 {
+		if len(order) > 64 {
 			return false
 		}
 		for _, s := range x.Succs {
@@ -201,7 +218,7 @@ func (fr *frame) tryIfConvert(instr *ssa.If, cond *Term) bool {
 	}
 	// purity + terminators
 	for _, x := range order {
-		if len(x.Succs) == 0 {
+		if len(x.Succs) == 0 && !toReturn {
 			return false
 		}
 		for i, in := range x.Instrs {
@@ -209,6 +226,10 @@ func (fr *frame) tryIfConvert(instr *ssa.If, cond *Term) bool {
 				switch in.(type) {
 				case *ssa.If, *ssa.Jump:
 					continue
+				case *ssa.Return:
+					if toReturn {
+						continue
+					}
 				}
 				return false
 			}
@@ -273,6 +294,34 @@ func (fr *frame) tryIfConvert(instr *ssa.If, cond *Term) bool {
 	addEdge(B, B.Succs[1], tt.Not(cond))
 
 	ok := true
+	// early-return form: merged results of the Return instructions reached so far
+	var retVals []Value
+	retSeen := false
+	mergeReturn := func(g *Term, r *ssa.Return) {
+		vals := make([]Value, len(r.Results))
+		for i, x := range r.Results {
+			vals[i] = fr.get(x)
+		}
+		if !retSeen {
+			retSeen = true
+			retVals = vals
+			return
+		}
+		for i, v := range vals {
+			vt, isT := v.(*Term)
+			ot, isO := retVals[i].(*Term)
+			if isT && isO {
+				if vt != ot {
+					retVals[i] = tt.Ite(g, vt, ot)
+				}
+				continue
+			}
+			if !sameValue(retVals[i], v) {
+				ok = false
+				return
+			}
+		}
+	}
 	mergePhis := func(x *ssa.BasicBlock) {
 		for _, in := range x.Instrs {
 			phi, isPhi := in.(*ssa.Phi)
@@ -339,6 +388,11 @@ func (fr *frame) tryIfConvert(instr *ssa.If, cond *Term) bool {
 					addEdge(x, x.Succs[1], tt.And(g, tt.Not(c)))
 				case *ssa.Jump:
 					addEdge(x, x.Succs[0], g)
+				case *ssa.Return:
+					mergeReturn(g, t)
+					if !ok {
+						return false
+					}
 				}
 				continue
 			}
@@ -376,6 +430,21 @@ func (fr *frame) tryIfConvert(instr *ssa.If, cond *Term) bool {
 				fr.env[in] = fr.get(in.Tuple).(Tuple)[in.Index]
 			}
 		}
+	}
+	if toReturn {
+		if !retSeen {
+			return false
+		}
+		w.stats.IfConv++
+		switch len(retVals) {
+		case 0:
+		case 1:
+			fr.result = retVals[0]
+		default:
+			fr.result = Tuple(retVals)
+		}
+		fr.block = nil
+		return true
 	}
 	mergePhis(J)
 	if !ok {
